@@ -278,6 +278,7 @@ def run(ctx):
     check_replace_unmakes(ctx)
     check_raw_child_drops(ctx, F)
     check_set_ast_shared_children(ctx)
+    check_link_liveness_in_yielding_loops(ctx)
 
 
 def check_replace_unmakes(ctx):
@@ -426,3 +427,45 @@ def check_set_ast_shared_children(ctx):
                       f'(these children included) and makes new FST nodes for them - every FST node below `{recv}` held by a running walk() or by the caller is '
                       f'dead although its AST is still in the tree', c.lineno, sample={'function': fi.key, 'call': norm(c, 100)})
     ctx.extra['set_ast_with_shared_children'] = n
+
+
+# ---- R15.7 -----------------------------------------------------------------------------------------------------------
+
+def check_link_liveness_in_yielding_loops(ctx):
+    """A generator of the traversal that loops over nodes it collected earlier and yields inside the loop gives the consumer the chance to
+    remove or replace the *later* elements: their `.f` link is None then.  Inside such a loop the `.f` of the loop element is handed on or
+    dereferenced only under a truth test of that link (`if d and (df := d.f): ... df`), the idiom of walk() itself."""
+    from ..struct import enclosing_tests
+    ctx.rule('R15.7', 'in a loop that yields, the `.f` link of the loop element is tested before it is handed on or dereferenced', 1)
+    n = 0
+    for fi in ctx.repo.all_funcs():
+        if isinstance(fi.node, ast.Lambda) or fi.module != 'fst_traverse' or not is_generator(fi.node):
+            continue
+        par = None
+        for loop in walk_no_nested(fi.node):
+            if not (isinstance(loop, ast.For) and isinstance(loop.target, ast.Name)):
+                continue
+            if not any(isinstance(y, (ast.Yield, ast.YieldFrom)) for b in loop.body for y in ast.walk(b)):
+                continue
+            v = loop.target.id
+            for x in (y for b in loop.body for y in ast.walk(b)):
+                if not (isinstance(x, ast.Attribute) and x.attr == 'f' and isinstance(x.value, ast.Name) and x.value.id == v):
+                    continue
+                par = par or parent_map(fi.node)
+                p = par.get(x)
+                if isinstance(p, ast.NamedExpr) and p.value is x:
+                    n += 1
+                    ctx.ok('R15.7', f'{fi.qualname}|{norm(p, 60)} (link bound and tested)')
+                    continue                  # `(df := d.f)`: the test itself (what is done with df is df's business)
+                used = (isinstance(p, ast.Call) and x in p.args) or (isinstance(p, ast.Attribute) and p.value is x) or isinstance(p, ast.keyword)
+                if not used:
+                    continue
+                n += 1
+                tests = [t for t, pol in enclosing_tests(fi.node, x, par) if pol]
+                ok = any(isinstance(y, ast.Attribute) and y.attr == 'f' and isinstance(y.value, ast.Name) and y.value.id == v
+                         for t in tests for y in ast.walk(t))
+                ctx.check('R15.7', ok, fi.module, fi.qualname, f'{norm(p, 60)} in `for {v} in ...` (yielding loop)',
+                          f'`{v}.f` is handed on / dereferenced in a loop that yields without a truth test of the link: an element the consumer removed or '
+                          f'replaced during an earlier yield of the loop has `.f` None (AttributeError in the middle of the walk)', x.lineno,
+                          sample={'function': fi.key, 'use': norm(p, 60)})
+    ctx.extra['yielding_loops_link_uses'] = n
